@@ -14,6 +14,9 @@ def special_models():
     out.append(b + [N("URL /pets", [N("Tags @dogs"), N("GET", [N("Tags @cats"), N("200 any")]), N("POST", [N("200 any")])])])
     out.append(b + [N("GET /a", [N("200", [N('Headers\n{"h1": "v"}'), N("Body any")]), N("404", [N('Headers\n{"h2": "v"}'), N("Body @t")])])])
     out.append(b + [N("URL /r", [N("Protocol json-rpc-2.0"), N("Method m", [N('Params\n{"p": 1}'), N("Description\n  after params")])])])
+    out.append(b + [N("URL /r2", [N("Protocol json-rpc-2.0"), N("Method first", [N('Result\n{"r": 1}'), N('Params\n{"p": 1}')]),
+                                   N("Method second", [N('Result\n[1]'), N("Description\n  between"), N('Params\n[2]')]),
+                                   N("Method third", [N('Params\n{"p": 3}'), N('Result\n{"r": 3}')])])])
     out.append(b + [N("SERVER @s1 // only annotation"), N("SERVER @s2", [N('BaseUrl "https://x/"')])])
     out.append(b + [N('GET /q', [N('Query noFormat "a=1"\n{"a": 1}'), N("200 any")])])
     out.append(b + [N("POST /two", [N("Request", [N('Headers\n{"h": "v"}'), N("Body regex\n/ab/")]), N("201 @t // created"), N("400 any // bad")])])
